@@ -496,6 +496,7 @@ pub fn step_name(s: &Step) -> &'static str {
         Step::Update { .. } => "update",
         Step::ProbeSole { .. } => "probe-sole-owner",
         Step::Copy { .. } => "copy",
+        Step::RefusedOp { .. } => "refused-custom-op",
     }
 }
 
